@@ -127,6 +127,11 @@ static void exec(void)
   econf_file *rA = NULL, *rB = NULL, *rC = NULL, *rD = NULL; econf_file **hE = NULL, **hF = NULL; size_t nE = 2, nF = 1;   /* the size argument is output-only: what it holds before the call must not matter */
   int cA = -1, cB = -1, cC, cD, cE = -1, cF = -1;
   const char *sfx = SFX[s.sfx];
+  /* an object that names the drop-in directories itself (the same ones that are in force anyway) is created BEFORE the other
+   * reads - configuring one object must not disturb the process-wide list the others rely on - and read last */
+  econf_file *rG = NULL; int cG;
+  { char og[1000]; if (s.cds) snprintf(og, sizeof og, "%s;CONFIG_DIRS=.d:.alt.d", pd_option); else snprintf(og, sizeof og, "%s;CONFIG_DIRS=%s", pd_option, ts.cd[0]);
+    if (econf_newKeyFile_with_options(&rG, og) != ECONF_SUCCESS) { mc_fail(sig.s, "option string \"%s\" refused", og); rG = NULL; } }
   if (s.layers == 2) {
     cA = econf_readDirs(&rA, arg0, arg1, NAME, sfx, "=", "#");
     cB = econf_readDirsWithCallback(&rB, arg0, arg1, NAME, sfx, "=", "#", cb_record, &logB);
@@ -138,10 +143,12 @@ static void exec(void)
   cC = econf_readConfig(&rC, "ignored", "/ignored", NAME, sfx, "=", "#");
   econf_newKeyFile_with_options(&rD, pd_option);
   cD = econf_readConfigWithCallback(&rD, "ignored", "/ignored", NAME, sfx, "=", "#", cb_record, &logD);
-  mc_st->libcalls += 4;
-  mc_log("rc: readDirs=%d +cb=%d readConfig=%d +cb=%d history=%d +cb=%d\n", cA, cB, cC, cD, cE, cF);
+  cG = rG ? (int)econf_readConfig(&rG, "ignored", "/ignored", NAME, sfx, "=", "#") : -1;
+  mc_st->libcalls += 6;
+  mc_log("rc: readDirs=%d +cb=%d readConfig=%d +cb=%d history=%d +cb=%d readConfig(own CONFIG_DIRS)=%d\n", cA, cB, cC, cD, cE, cF, cG);
 
   int want_rc = nlist ? ECONF_SUCCESS : ECONF_NOFILE;
+  if (cG != want_rc) mc_fail(sig.s, "econf_readConfig on an object with its own (identical) CONFIG_DIRS list returned %d, reference %d; %s", cG, want_rc, sig.s);
   if (cC != want_rc || cD != want_rc || (s.layers == 2 && (cA != want_rc || cB != want_rc || cE != want_rc || cF != want_rc)))
     mc_fail(sig.s, "return codes differ from each other or from the reference %d: readDirs=%d readDirsWithCallback=%d readConfig=%d readConfigWithCallback=%d history=%d historyWithCallback=%d; %s",
             want_rc, cA, cB, cC, cD, cE, cF, sig.s);
@@ -149,6 +156,7 @@ static void exec(void)
     sbuf dA = {0}, dB = {0}, dC = {0}, dD = {0};
     dump_full(&dC, rC, mc_work, 0); dump_full(&dD, rD, mc_work, 0);
     if (strcmp(dC.s, dD.s)) mc_fail(sig.s, "readConfig and readConfigWithCallback differ:\n%s\nvs\n%s\n%s", dC.s, dD.s, sig.s);
+    if (rG && cG == want_rc) { sbuf dG = {0}; dump_full(&dG, rG, mc_work, 0); if (strcmp(dC.s, dG.s)) mc_fail(sig.s, "readConfig with the process-wide drop-in list and with the same list as CONFIG_DIRS option differ:\n%s\nvs\n%s\n%s", dC.s, dG.s, sig.s); sb_free(&dG); }
     if (t_compare_log(&logD, list, nlist, &why)) mc_fail(sig.s, "readConfigWithCallback: %s; %s", why.s, sig.s);
     if (s.layers == 2) {
       dump_full(&dA, rA, mc_work, 0); dump_full(&dB, rB, mc_work, 0);
@@ -204,6 +212,7 @@ static void exec(void)
   if (rA) econf_freeFile(rA);
   if (rB) econf_freeFile(rB);
   if (rC) econf_freeFile(rC);
+  if (rG) econf_freeFile(rG);
   if (rD) econf_freeFile(rD);
   if (hE) { for (size_t i = 0; i < nE; i++) econf_freeFile(hE[i]); free(hE); }
   if (hF) { for (size_t i = 0; i < nF; i++) econf_freeFile(hF[i]); free(hF); }
